@@ -42,7 +42,7 @@ class C40(Prop):
             'r=open its gate, f=open its gate with an exception, c=Task.cancel() issued directly, cs=Task.cancel() issued from a callback '
             'queued behind the other actions of the group; the actions of one group are issued without running the loop in between (same loop '
             'iteration), then the loop runs to quiescence and (sem.value, ids inside the body, order of sem.events, ids that hit the '
-            'assertion) is compared with the model; non-trivial = some acquire had to wait or some cancel was injected; distinct by full case')
+            'assertion) is compared with the model; the oracle also looks at sem.value and the running bodies at every body entry; non-trivial = some acquire had to wait or some cancel was injected; distinct by full case')
     trusted = ['harness/aloop.py deterministic event loop (real asyncio.SelectorEventLoop; ready queue never permuted)',
                'sortedcontainers.SortedKeyList (real package)',
                'waiter order is read from sem.events through asyncio.Event._waiters / Task._fut_waiter (falls back to (weight, arrival))']
@@ -203,6 +203,13 @@ class C40(Prop):
                     for j in holders:
                         if j != i:
                             nxt += [[['r', i], ['cs', j]]]
+                        if i < j:
+                            nxt += [[['r', i], ['r', j]]]          # two exits before any woken waiter runs
+                if len(active) < max_tasks:
+                    i = min(j for j in range(max_tasks) if j not in active)
+                    for h in holders:                              # an exit and a newcomer in the same iteration, both orders
+                        for w in range(1, m + 1):
+                            nxt += [[['r', h], ['a', i, w]], [['a', i, w], ['r', h]]]
             for g in nxt:
                 rec(groups + [g])
         rec([])
@@ -210,9 +217,10 @@ class C40(Prop):
 
     def cases(self, rng, n, tier):
         if tier == 'thorough':
-            # every protocol-respecting sequence of exactly 7 (max 1, 2) / 6 (max 3) groups over <= 4 tasks, where a group is a
-            # single op or a same-iteration pair (exit;cancel / exit;cancel-soon / cancel;exit); shorter ones are prefixes
-            for m, length in ((1, 7), (2, 7), (3, 6)):
+            # every protocol-respecting sequence of exactly 7 (max 1) / 6 (max 2) / 5 (max 3) groups over <= 4 tasks, where a group is
+            # a single op or a same-iteration pair (exit;cancel / exit;cancel-soon / cancel;exit / exit;exit / exit;acquire /
+            # acquire;exit); shorter ones are prefixes
+            for m, length in ((1, 7), (2, 6), (3, 5)):
                 yield from self._exhaustive(m, length, 4)
         else:
             for m in (1, 2):
@@ -260,6 +268,7 @@ class C40(Prop):
             arrival = []     # (weight, seq, id) of jobs that did not enter at once (fallback ordering only)
             seq = [0]
             n_release = [0]
+            cur_group = [0]
             real_release = sem.release
 
             def counting_release(n):
@@ -270,6 +279,12 @@ class C40(Prop):
             async def job(i, w, gate):
                 async with sem.acquire_manager(w):
                     inside.add(i)
+                    # the property at the moment a body starts (woken waiters that have not run yet own their weight already)
+                    running = sum(weights[j] for j in inside)
+                    if (sem.value < 0 or sem.value + running > c['max']) and 'transient' not in info:
+                        info['transient_group'] = cur_group[0]
+                        info['transient'] = (f'when task {i} entered its body: value {sem.value}, running bodies {sorted(inside)} use '
+                                             f"{running}, max {c['max']}")
                     try:
                         await gate
                     finally:
@@ -281,7 +296,8 @@ class C40(Prop):
                         f'a={_fmt(asserted)}')
 
             out = ['ok', line([])]
-            for g in c['groups']:
+            for gk, g in enumerate(c['groups']):
+                cur_group[0] = gk
                 ids = [o[1] for o in g]
                 legal = len(set(ids)) == len(ids)
                 for o in g:
@@ -364,11 +380,14 @@ class C40(Prop):
         if out and out[0].startswith('IMPL-EXC'):
             return out[0]
         m = c['max']
+        info = self._info.get(json.dumps(c, sort_keys=True)) or {}
         weights = {}
         alive = set()       # tasks spawned and not yet exited / cancelled / failed the assertion (from the ops)
         for k, (g, ln) in enumerate(zip(c['groups'], out[2:])):
             if ln == 'err':
                 return None  # the op list does not respect the protocol: outside the quantifier
+            if info.get('transient') and info.get('transient_group') == k:
+                return f"group {k} {g}: {info['transient']}"
             v, h, a = self._parse(ln)
             at = f'after group {k} {g}'
             gone = set()
@@ -405,7 +424,7 @@ class C40(Prop):
 
     def classify(self, c, out):
         key = json.dumps(c, sort_keys=True)
-        info = self._info.pop(key, None) or {}
+        info = self._info.get(key) or {}
         tags = [f"groups={min(len(c['groups']), 14)}", f"max={c['max']}"]
         for k in ('queued', 'cancel_waiter', 'cancel_holder', 'same_iter'):
             if info.get(k):
